@@ -659,6 +659,8 @@ def g_xhist(rng, mode):
                 st['conds'] = conds
             else:
                 st['keys'] = g_xkeys(rng, K, knames, op == 'sort')
+                if 't' in st['keys'] and rng.random() < 0.4:
+                    st['kform'] = rng.choice(['list', 'iter'])
                 if op == 'sort':
                     st['reverse'] = rng.random() < 0.4
                 elif K == 'ml' and rng.random() < 0.1:
@@ -1239,14 +1241,15 @@ def _xpykey(k, ml):
     raise ValueError(c)
 
 
-def _xpykeys(ks, ml):
+def _xpykeys(ks, ml, form='tuple'):
     if 'default' in ks:
         return ()
     if 's' in ks:
         return (ks['s'],)
     if 'one' in ks:
         return (_xpykey(ks['one'], ml),)
-    return (tuple(_xpykey(k, ml) for k in ks['t']),)
+    t = [_xpykey(k, ml) for k in ks['t']]
+    return (tuple(t) if form == 'tuple' else t if form == 'list' else iter(t),)      # any iterable of keys (cane.py:17-18)
 
 
 def _partition(vals):
@@ -1355,7 +1358,7 @@ def _impl_xhist(case):
             ix = lambda l: [ident.get(id(o), -1) for o in l]
             c = cls(objs)
             if st['s'] == 'groupby':
-                d = c.d if st.get('via') == 'd' else c.groupby(*_xpykeys(st['keys'], K == 'ml'))
+                d = c.d if st.get('via') == 'd' else c.groupby(*_xpykeys(st['keys'], K == 'ml', st.get('kform', 'tuple')))
 
                 def render(t):
                     if isinstance(t, dict):
@@ -1365,7 +1368,7 @@ def _impl_xhist(case):
                 assert ix(c.data) == ix(objs)
                 out.append(render(d))
             elif st['s'] == 'sort':
-                r = c.sort(*_xpykeys(st['keys'], False), reverse=st['reverse'])
+                r = c.sort(*_xpykeys(st['keys'], False, st.get('kform', 'tuple')), reverse=st['reverse'])
                 assert r is c
                 out.append(ix(c.data))
             else:
@@ -2021,6 +2024,8 @@ def _xsnippet(case):
         if 'one' in ks:
             return f(ks['one'])
         return '(' + ''.join(f(k) + ', ' for k in ks['t']) + ')'
+    def kf(txt, st):
+        return {'list': 'list(%s)', 'iter': 'iter(%s)'}.get(st.get('kform'), '%s') % txt if txt else txt
     for st in case['xsteps']:
         if st['s'] == 'mall':
             rf = tuple(st['rf']) if isinstance(st['rf'], list) else st['rf']
@@ -2036,9 +2041,9 @@ def _xsnippet(case):
             cls = {'fl': 'FeatureList', 'bb': 'BioBasket', 'ml': 'BioMatchList'}[st['K']]
             s += 'x = %s([%s])\n' % (cls, ', '.join(pe(e) for e in st['xs']))
             if st['s'] == 'groupby':
-                s += 'print(x.d)\n' if st.get('via') == 'd' else 'print(x.groupby(%s))\n' % pk(st['keys'], st['K'] == 'ml')
+                s += 'print(x.d)\n' if st.get('via') == 'd' else 'print(x.groupby(%s))\n' % kf(pk(st['keys'], st['K'] == 'ml'), st)
             elif st['s'] == 'sort':
-                k = pk(st['keys'], False)
+                k = kf(pk(st['keys'], False), st)
                 s += 'print(x.sort(%s%sreverse=%r))\n' % (k, ', ' if k else '', st['reverse'])
             else:
                 s += 'print(x.filter(**%r))\n' % ({k: _val(v) for k, v in st['conds']},)
@@ -2168,7 +2173,7 @@ def python_snippet(case):
     return s + ('print(x.d)' if case.get('via') == 'd' else 'print(x.todict())')
 
 
-LEVEL_TEXT = ('Machine-checked Coq theorems (45, all closed) about an executable model of sugar\'s collection helpers, for all lists: '
+LEVEL_TEXT = ('Machine-checked Coq theorems (51, all closed) about an executable model of sugar\'s collection helpers, for all lists: '
               'filter = List.filter of the conjunction of the conditions (order kept, receiver replaced only with inplace; aliases '
               'max/min/in/lowerin/lowereq against the operator table regenerated from the code; order of the conditions irrelevant; in / '
               'lowerin / contains = equality search in a list or tuple, containment in a str, never prefix or lower-casing of the '
@@ -2183,9 +2188,17 @@ LEVEL_TEXT = ('Machine-checked Coq theorems (45, all closed) about an executable
               '&,|,-,^ with in-place and reflected forms: membership under element equality (an equivalence relation), order preserving, '
               'a&a=a, a-a=[], in-place forms leave in the receiver what the plain forms return; basket.fts= / add_fts attach by seqid: '
               'first sequence with an id wins, attached + unattachable features are a permutation of the given ones, a sequence only '
-              'receives features whose seqid is its id, add_fts = stable default sort of old ++ new. The model is tied to /repo by '
+              'receives features whose seqid is its id, add_fts = stable default sort of old ++ new. '
+              'Round 7: WHERE a key is looked up, per collection kind, as a decision table (place_table: metadata entry for '
+              'FeatureList / BioBasket, for BioMatchList the instance attribute, else the attribute of the wrapped re.Match, else None; a '
+              'callable gets the object; filter: len(obj) for the key len, else the metadata entry); whatever sits at the OTHER places changes no '
+              'answer (other_place_irrelevant); groupby and sort use EXACTLY the values at the places of their keys: collections agreeing '
+              'position by position on identity and on those values get the same nested grouping / the same order '
+              '(groupby_reads_only_place, sort_reads_only_place, filter_reads_only_place, by induction over keys / conditions and lists); BioMatchList.groupby(name) puts under v '
+              'exactly the matches whose attribute is v (matchlist_groupby_attr). The model is tied to /repo by '
               'differential testing of the public methods on every run, including multi-call histories on one object that probe '
-              'aliasing between receiver, operands and results.')
+              'aliasing between receiver, operands and results, and histories across BioMatchList / FeatureList / BioBasket objects in one '
+              'process (same key names, every place filled with a different value, find_orfs / matchall interleaved).')
 LEVEL_NOTE = ('Trusted: Coq kernel/vm_compute, the correspondence harness, CPython sorted() being a stable sort (modelled by a '
               'proven-stable insertion sort and compared on tie-heavy inputs and an exhaustive box), dict order, str.lower/split/rsplit '
               '(compared on all 256 Latin-1 code points). Modelled rather than verified: cane._keyfuncs/_groupby/_sorted/_filter, '
